@@ -3,7 +3,7 @@
    Times are Z nanoseconds since the Unix epoch (Go's zero time.Time is [zero_time]); durations are Z ns.
    No proofs here: the model must still run when a proof breaks. *)
 From Coq Require Import List String Ascii Bool ZArith Lia.
-From Exo Require Import Base.Store.
+From Exo Require Import Base.Store Base.Util.
 Import ListNotations.
 Local Open Scope Z_scope.
 Local Open Scope list_scope.
@@ -107,13 +107,6 @@ Definition ev_eqb (a b : event) : bool :=
   kind_eqb (ev_k a) (ev_k b) && String.eqb (ev_id a) (ev_id b) && (ev_num a =? ev_num b) &&
   Nat.eqb (ev_sub a) (ev_sub b).
 
-Fixpoint list_eqb {A} (f : A -> A -> bool) (l1 l2 : list A) : bool :=
-  match l1, l2 with
-  | [], [] => true
-  | a :: r1, b :: r2 => f a b && list_eqb f r1 r2
-  | _, _ => false
-  end.
-
 (* None = the implementation did what the model does; Some i = first disagreement at step i
    (0 = subscriber order, 1 = state after genesis, i+2 = block i) *)
 Fixpoint check_blocks (nsubs : nat) (st : store epoch_info) (bs : list blk) (i : nat) : option nat :=
@@ -176,12 +169,3 @@ Definition monitor_case (c : case) : option nat :=
   if negb (list_eqb String.eqb (c_subs c) subscribers) then Some 0%nat
   else monitor_blocks (List.length (c_subs c)) (c_after_gen c) (c_blocks c) 2.
 
-(* indices of failing cases *)
-Fixpoint failing {A} (f : A -> option nat) (cs : list A) (i : nat) : list (nat * nat) :=
-  match cs with
-  | [] => []
-  | c :: r => match f c with
-              | None => failing f r (S i)
-              | Some j => (i, j) :: failing f r (S i)
-              end
-  end.
